@@ -287,15 +287,28 @@ def topSingleOps (o : POpts) (S : LSchema) (fc : FrameCtx) : List DNode → Opti
 
 def magicOp : Op := .write (P_MAGIC.map UInt8.ofNat)
 
-/-- `lyb_print_data(out, root, options)`: the calls of the chunk layer (the module table lists the modules of ALL top-level
-siblings of `root` also without `LYD_PRINT_WITHSIBLINGS`: one module here) -/
-def docOps (o : POpts) (S : LSchema) (t : List DNode) : Option (List Op) :=
+/-- the document around the top-level frame content `top`: magic number, header byte, module table (the modules of ALL top-level
+siblings of `root`, also without `LYD_PRINT_WITHSIBLINGS`: one module here), the frame, the ending zero -/
+def docAround (S : LSchema) (t : List DNode) (top : Option (List Op)) : Option (List Op) :=
   some [magicOp, .write [UInt8.ofNat LYB_VERSION_NUM]] +++
     (if t.isEmpty then some [wNum P_MODCOUNT 0] else some [wNum P_MODCOUNT 1] +++ modelOps S.modName S.rev true) +++
-    some [.start] +++ (if o.withSiblings then sibOps o S none (S.frame none) none t else topSingleOps o S (S.frame none) t)
-      +++ some [.stop, .write [0]]
+    some [.start] +++ top +++ some [.stop, .write [0]]
 
-/-- the LYB image of a forest (`none`: the printer fails — `LY_EINT`) -/
+/-- `lyb_print_data(out, root, LYD_PRINT_WITHSIBLINGS | wd)` -/
+def docOpsW (o : POpts) (S : LSchema) (t : List DNode) : Option (List Op) :=
+  docAround S t (sibOps o S none (S.frame none) none t)
+
+/-- `lyb_print_data(out, root, options)`: the calls of the chunk layer -/
+def docOps (o : POpts) (S : LSchema) (t : List DNode) : Option (List Op) :=
+  if o.withSiblings then docOpsW o S t else docAround S t (topSingleOps o S (S.frame none) t)
+
+/-- the LYB image of a forest printed with all its siblings (`none`: the printer fails — `LY_EINT`) -/
+def printLybW (P : Params) (o : POpts) (S : LSchema) (t : List DNode) : Option Bytes :=
+  match docOpsW o S t with
+  | none => none
+  | some ops => writeAll P ops
+
+/-- the LYB image of a forest under the print options -/
 def printLyb (P : Params) (o : POpts) (S : LSchema) (t : List DNode) : Option Bytes :=
   match docOps o S t with
   | none => none
